@@ -357,8 +357,16 @@ func nextClass(rest []byte) string {
 // traceDoc drives one tokenizer over doc for at most maxCalls calls of Next (continuing
 // past false returns to observe stickiness), logging every call.
 func (tt *tokTracer) run(t *json.Tokenizer, doc []byte, maxCalls int, extraAfterStop int) {
+	tt.runID(1, t, doc, maxCalls, extraAfterStop, nil)
+}
+
+// runID drives tokenizer `id`; between two of its calls `between` (if any) lets another tokenizer make a call
+func (tt *tokTracer) runID(id int, t *json.Tokenizer, doc []byte, maxCalls int, extraAfterStop int, between func()) {
 	stopped := 0
 	for n := 0; n < maxCalls; n++ {
+		if between != nil {
+			between()
+		}
 		hadErr := t.Err != nil
 		cls := "none"
 		if !hadErr {
@@ -368,7 +376,7 @@ func (tt *tokTracer) run(t *json.Tokenizer, doc []byte, maxCalls int, extraAfter
 		if !hadErr && t.Err != nil && t.Delim == 0 {
 			cls = "bad" // malformed scalar or stray byte
 		}
-		tt.emit(fmt.Sprintf(`{"ev":"next","tok":%q,"ret":%v,"d":%d,"i":%d,"k":%v,"e":%v}`, cls, ret, t.Depth, t.Index, t.IsKey, t.Err != nil))
+		tt.emit(fmt.Sprintf(`{"ev":"next","t":%d,"tok":%q,"ret":%v,"d":%d,"i":%d,"k":%v,"e":%v}`, id, cls, ret, t.Depth, t.Index, t.IsKey, t.Err != nil))
 		if !ret {
 			stopped++
 			if stopped > extraAfterStop {
@@ -454,13 +462,30 @@ func c17Trace(args []string) {
 			}
 			if d == 0 {
 				t = json.NewTokenizer(doc)
-				tt.emit(`{"ev":"new"}`)
+				tt.emit(`{"ev":"new","t":1}`)
 			} else {
 				t.Reset(doc)
-				tt.emit(`{"ev":"reset"}`)
+				tt.emit(`{"ev":"reset","t":1}`)
 			}
-			if p := protect(func() { tt.run(t, doc, calls, extra) }); p != "" {
-				tt.emit(`{"ev":"panic"}`)
+			// every third history: a second tokenizer is alive at the same time and the calls interleave
+			var between func()
+			if h%3 == 2 {
+				doc2 := randomTokDoc(r, true, vecs)
+				t2 := json.NewTokenizer(doc2)
+				tt.emit(`{"ev":"new","t":2}`)
+				hist = append(hist, fmt.Sprintf("interleaved with %q", doc2))
+				done2 := false
+				between = func() {
+					if !done2 {
+						one := &tokTracer{w: tt.w}
+						one.runID(2, t2, doc2, 1, 0, nil)
+						tt.events += one.events
+						done2 = t2.Err != nil || (t2.Remaining() == 0 && one.events > 0 && t2.Delim == 0 && len(t2.Value) == 0)
+					}
+				}
+			}
+			if p := protect(func() { tt.runID(1, t, doc, calls, extra, between) }); p != "" {
+				tt.emit(`{"ev":"panic","t":1}`)
 			}
 		}
 		if fi != nil && !skip {
